@@ -562,3 +562,29 @@ def gen_interrupt(rng: random.Random) -> dict:
     if rng.random() < 0.5:
         rng.shuffle(nodes)
     return {"program": [{"name": "g0", "nodes": nodes, "bound": []}], "values": values, "async_only": True}
+
+
+def gen_nested_gate_loop(rng: random.Random) -> dict:
+    """A loop driven by two stacked gates: `outer` routes to the gate `inner` (or END); `inner` picks `bump` or `other`.
+
+    Exercises gates that are themselves gate targets inside a cycle (a stale, non-runnable inner gate)."""
+    n = rng.randint(0, 4)
+    x0 = rng.randint(0, 2)
+    pick_other_at = rng.choice([None, None, rng.randint(0, 4)])
+    outer_kind = rng.choice(["route", "ifelse"])
+    if outer_kind == "route":
+        outer = {"name": "outer", "kind": "route", "params": [["x", None]], "targets": ["inner", "__END__"],
+                 "body": {"b": "table", "rows": [[v, "inner"] for v in range(0, n)], "dflt": "__END__"}, "defaultOpen": rng.random() < 0.7}
+    else:
+        outer = {"name": "outer", "kind": "ifelse", "params": [["x", None]], "targets": ["inner", "__END__"],
+                 "body": {"b": "lt", "k": n}, "defaultOpen": rng.random() < 0.7}
+    rows = [[v, "bump"] for v in range(0, 8) if v != pick_other_at] + ([[pick_other_at, "other"]] if pick_other_at is not None else [])
+    inner = {"name": "inner", "kind": "route", "params": [["x", None]], "targets": ["bump", "other"],
+             "body": {"b": "table", "rows": rows, "dflt": "bump"}, "defaultOpen": rng.random() < 0.7}
+    bump = _fn_node("bump", [["x", None]], ["x"], {"b": "sum", "k": 1})
+    other = _fn_node("other", [["x", None]], ["side"], {"b": "tag", "t": "other"})
+    nodes = [outer, inner, bump, other]
+    if rng.random() < 0.5:
+        rng.shuffle(nodes)
+    return {"program": [{"name": "g0", "nodes": nodes, "bound": []}], "values": [["x", x0]], "cfg": {"maxIter": 60},
+            "nested_loop": {"n": n, "x0": x0, "other_at": pick_other_at}}
